@@ -50,9 +50,9 @@ ASSUMPTIONS = [
     "contents at positions flagged missing are uninitialised (np.empty): zeroed on both sides before comparing",
 ]
 
-TOK = 1 << 1200          # float value tokens live above every scaled payload
+TOK = 1 << 100           # float value tokens live above every scaled payload the generators can produce (|value| < 2^80)
 F_NAN, F_PINF, F_NINF, F_NZERO = TOK + 1, TOK + 2, TOK + 3, TOK + 4
-ND_BASE = TOK + (1 << 1190)
+ND_BASE = TOK + (1 << 90)
 
 
 # ---------------------------------------------------------------- payload encoding
@@ -66,13 +66,16 @@ def enc_float(v: float) -> int:
         return F_NINF
     if v == 0.0 and math.copysign(1.0, v) < 0:
         return F_NZERO
-    x = v * 1024
-    if abs(x) < 2.0 ** 1000 and x == int(x) and Fraction(int(x), 1024) == Fraction(v):
-        return int(x)
-    n, d = Fraction(v).numerator, Fraction(v).denominator
+    if abs(v) >= 2.0 ** 80:
+        raise HarnessError(f"float {v!r} beyond the payload encoding")
+    fr = Fraction(v)
+    if (fr * 1024).denominator == 1:
+        return int(fr * 1024)
+    # not a multiple of 2^-10: a token of the exact value n / 2^k (the same for float16/32/64)
+    n, d = fr.numerator, fr.denominator
     k = d.bit_length() - 1
-    assert d == 1 << k and abs(n) < (1 << 127) and k < (1 << 12)
-    return ND_BASE + (k << 128) + (n + (1 << 127))
+    assert d == 1 << k and abs(n) < (1 << 63) and k < (1 << 12)
+    return ND_BASE + (k << 64) + (n + (1 << 63))
 
 
 def dec_float(p: int) -> float:
@@ -86,7 +89,7 @@ def dec_float(p: int) -> float:
         return -0.0
     if p >= ND_BASE:
         r = p - ND_BASE
-        k, n = r >> 128, (r & ((1 << 128) - 1)) - (1 << 127)
+        k, n = r >> 64, (r & ((1 << 64) - 1)) - (1 << 63)
         return float(Fraction(n, 1 << k))
     return p / 1024
 
@@ -152,12 +155,11 @@ def xabstract(a: np.ndarray) -> dict:
 
 
 def cxdt(d: dict) -> str:
-    return f"{{| x_base := {DTYPE_COQ[d['dt']]}; x_swap := {cbool(d['be'])}; x_width := {cnat(d['w'])} |}}"
+    return f"(mkd {DTYPE_COQ[d['dt']]} {cbool(d['be'])} {cnat(d['w'])})"
 
 
 def cxvarr(e: dict) -> str:
-    return (f"{{| xv_dt := {cxdt(e)}; xv_shape := {clist(e['shape'], cnat)}; "
-            f"xv_flat := {clist(e['flat'], cz)} |}}")
+    return f"(mkx {cxdt(e)} {clist(e['shape'], cnat)} {clist(e['flat'], cz)})"
 
 
 def cmiss(m) -> str:
